@@ -275,9 +275,10 @@ func (m *mergedIterator) initQueue() {
 	i := 0
 	for _, it := range m.its {
 		if it.Valid() {
+			// the iterator reuses its key buffer, keep a copy of the key before moving on
 			m.pq = append(m.pq, &item{
 				it:    it,
-				key:   it.Key(),
+				key:   append([]byte{}, it.Key()...),
 				index: i,
 			})
 			it.Next()
@@ -303,7 +304,7 @@ func (m *mergedIterator) HasNext() bool {
 		// if it has value, push back queue and adjust priority
 		it := item.it
 		if it.Valid() {
-			item.key = it.Key()
+			item.key = append(item.key[:0], it.Key()...)
 			m.pq.Push(item)
 			m.pq.update(item)
 
